@@ -124,6 +124,14 @@ type Unit struct {
 	curLoopBody map[*ssa.BasicBlock]bool
 	localWrites []localWrite
 	repoCallees map[string]bool // contracts of /repo functions and interfaces assumed at call sites
+	epochFrames map[int]*epochFrame
+}
+
+// epochFrame records a havoc of one object only (havocObject): in that epoch every component agrees with its
+// pre-havoc version outside the object.
+type epochFrame struct {
+	prev *State
+	root Term
 }
 
 func newUnit(p *Program, name string) *Unit {
@@ -269,6 +277,19 @@ func (u *Unit) get(st *State, name string) Term {
 		key := fmt.Sprintf("%s@%d", name, st.epoch)
 		if t, ok := u.entry[key]; ok {
 			return t
+		}
+		if ef := u.epochFrames[st.epoch]; ef != nil && name != "alloc" {
+			pv := u.get(ef.prev, name)
+			if !strings.HasPrefix(name, "F_") && !strings.HasPrefix(name, "H_") {
+				u.entry[key] = pv
+				return pv
+			}
+			n := fmt.Sprintf("%s!e%d", smtIdent(name), st.epoch)
+			u.emit(fmt.Sprintf("(declare-fun %s () %s)", n, u.compSortOf(name)))
+			u.entry[key] = n
+			u.assume(fmt.Sprintf("(forall ((r Ref)) (! (or (= (rootid r) %s) (= (select %s r) (select %s r))) :pattern ((select %s r))))", ef.root, n, pv, n))
+			u.closedFacts(name, n, u.get(st, "alloc"))
+			return n
 		}
 		n := fmt.Sprintf("%s!e%d", smtIdent(name), st.epoch)
 		u.emit(fmt.Sprintf("(declare-fun %s () %s)", n, u.compSortOf(name)))
@@ -641,6 +662,14 @@ func (o *Obligation) instantiate() (Term, []string) {
 			goal = strings.ReplaceAll(goal, q.Text, "(or "+strings.Join(alts, " ")+")")
 		}
 	}
+	// Instances of the universals of one hypothesis F are put into ONE copy of F: every universal is replaced by
+	// (and universal instances...), which is equivalent to it whatever its position. (One copy of F per instance
+	// made queries of tens of megabytes for hypotheses with several quantifiers.)
+	type group struct {
+		F, cur Term
+	}
+	var groups []*group
+	byF := map[Term]*group{}
 	done := map[string]bool{}
 	for _, h := range u.hyps {
 		if h.pos > o.Prefix {
@@ -657,10 +686,18 @@ func (o *Obligation) instantiate() (Term, []string) {
 				continue
 			}
 		}
+		var insts []Term
+		seenI := map[Term]bool{}
+		addi := func(t Term) {
+			if !seenI[t] && t != h.q.Text {
+				seenI[t] = true
+				insts = append(insts, t)
+			}
+		}
 		if len(h.q.TVars) > 0 {
 			// typed quantifier: instantiate with the goal's skolem constants of the same source name
 			var ts []Term
-			for j, nm := range h.q.TNames {
+			for _, nm := range h.q.TNames {
 				var pick Term
 				for _, sk := range skolems {
 					if sk.src == nm && sk.sort == h.q.TSort {
@@ -670,40 +707,56 @@ func (o *Obligation) instantiate() (Term, []string) {
 				if pick == "" {
 					break
 				}
-				_ = j
 				ts = append(ts, pick)
 			}
 			if len(ts) == len(h.q.TVars) {
-				inst := strings.ReplaceAll(h.F, h.q.Text, instTyped(h.q, ts))
-				if !done[inst] {
-					done[inst] = true
-					extra = append(extra, "(assert "+inst+")")
+				addi(instTyped(h.q, ts))
+			}
+		} else {
+			for _, w := range u.witnesses {
+				if w.pos <= o.Prefix {
+					addi(instQuant(h.q, w.t))
 				}
 			}
+			offs := map[Term]bool{}
+			var offl []Term
+			for _, off := range h.q.Offs {
+				if !offs[off] {
+					offs[off] = true
+					offl = append(offl, off)
+				}
+			}
+			for _, off := range offl {
+				for _, c := range cands {
+					addi(instQuant(h.q, "(- "+c+" "+off+")"))
+				}
+			}
+		}
+		if len(insts) == 0 {
 			continue
 		}
-		for _, w := range u.witnesses {
-			if w.pos <= o.Prefix {
-				inst := strings.ReplaceAll(h.F, h.q.Text, instQuant(h.q, w.t))
-				if !done[inst] {
-					done[inst] = true
-					extra = append(extra, "(assert "+inst+")")
-				}
+		g := byF[h.F]
+		if g == nil {
+			g = &group{F: h.F, cur: h.F}
+			byF[h.F] = g
+			groups = append(groups, g)
+		}
+		if strings.Contains(g.cur, h.q.Text) {
+			g.cur = strings.ReplaceAll(g.cur, h.q.Text, "(and "+h.q.Text+" "+strings.Join(insts, " ")+")")
+			continue
+		}
+		for _, in := range insts {
+			inst := strings.ReplaceAll(h.F, h.q.Text, in)
+			if !done[inst] {
+				done[inst] = true
+				extra = append(extra, "(assert "+inst+")")
 			}
 		}
-		offs := map[Term]bool{}
-		for _, off := range h.q.Offs {
-			offs[off] = true
-		}
-		for off := range offs {
-			for _, c := range cands {
-				t := "(- " + c + " " + off + ")"
-				inst := strings.ReplaceAll(h.F, h.q.Text, instQuant(h.q, t))
-				if !done[inst] {
-					done[inst] = true
-					extra = append(extra, "(assert "+inst+")")
-				}
-			}
+	}
+	for _, g := range groups {
+		if g.cur != g.F && !done[g.cur] {
+			done[g.cur] = true
+			extra = append(extra, "(assert "+g.cur+")")
 		}
 	}
 	return goal, extra
